@@ -27,7 +27,7 @@ def run(ctx: Ctx):
         width = len(d["control"]) + sum(len(r) for r in d["sensors"].values())
         rows = ctx.rng.randint(1, 5)
         X = [[M.rnd_point(ctx.rng) for _ in range(width)] for _ in range(rows)]
-        jobs.append({"defn": d, "k": [None, 4.0, 1.0][i % 3], "decl": {"container": "set", "perm_seed": i}, "X": X})
+        jobs.append({"defn": d, "k": [None, 4.0, 1.0][i % 3], "max_dt_sec": [0.1, 0.02, 0.5, 0.1][i % 4], "decl": {"container": "set", "perm_seed": i}, "X": X})
     res = ctx.run_impl_jobs("adapter_py.py", jobs)
     rows_txt = []
     dist = {"estimators": n, "rows": 0, "sensors": {}, "controls": {}}
@@ -42,7 +42,7 @@ def run(ctx: Ctx):
         if "error" in r:
             ctx.violation(f"adapter raised on a valid model and finite data: {r['kind']}", {"definition": d, "X": j["X"], "k": j["k"], "error": r["error"]}, key=f"adapter-raises:{r['kind']}")
             continue
-        rep = {"definition": d, "X": j["X"], "k": j["k"]}
+        rep = {"definition": d, "X": j["X"], "k": j["k"], "max_dt_sec": j.get("max_dt_sec")}
         T, B = r["transform"], r["by_hand"]
         if len(T) != len(B) or any(len(a) != len(b) or any(abs(x - y) > 1e-12 * max(1.0, abs(y)) for x, y in zip(a, b)) for a, b in zip(T, B)):
             ctx.violation("transform differs from running the exported filter by hand (predict with the fixed step, update sensors in key order, NIS from the recorded innovation)",
